@@ -1,5 +1,10 @@
 package main
 
+import (
+	"fmt"
+	"strings"
+)
+
 func (ex *Exec) blobLen(b *Blob) *Term {
 	f := ex.tf
 	if b.Str != nil {
@@ -20,6 +25,24 @@ func (ex *Exec) blobEq(a, b *Blob) *Term {
 	if a == b {
 		return ex.tf.True
 	}
+	if a.Pack != nil || b.Pack != nil {
+		if a.Pack == nil || b.Pack == nil {
+			return ex.tf.False
+		}
+		pa, pb := a.Pack, b.Pack
+		if pa.abi != pb.abi || pa.method != pb.method || len(pa.args) != len(pb.args) || pa.skip != pb.skip {
+			return ex.tf.False
+		}
+		cs := []*Term{}
+		for i := range pa.args {
+			t, ok := ex.tryDeepEq(pa.args[i], pb.args[i])
+			if !ok {
+				panic(engineErr("comparison of abi.Pack arguments failed"))
+			}
+			cs = append(cs, t)
+		}
+		return ex.tf.And(cs...)
+	}
 	if a.Str != nil || b.Str != nil {
 		if a.Str != nil && b.Str != nil {
 			return ex.strEq(*a.Str, *b.Str)
@@ -33,8 +56,32 @@ func (ex *Exec) blobEq(a, b *Blob) *Term {
 	return t
 }
 
+// blobDigest: one pseudo-byte standing for the whole opaque encoding; equal iff the encoded contents are equal.
 func (ex *Exec) blobDigest(b *Blob) *Term {
-	panic(engineErr("hash of a marshalled message"))
+	f := ex.tf
+	if b.digest != nil {
+		return b.digest
+	}
+	key := ex.blobKey(b)
+	for _, o := range ex.digested {
+		if o.key == key && key != "" {
+			b.digest = o.digest
+			return b.digest
+		}
+	}
+	b.key = key
+	ex.blobCnt++
+	d := f.Var("blobdigest!"+itoa(ex.blobCnt), SInt, nil, nil)
+	b.digest = d
+	for _, o := range ex.digested {
+		if (o.Pack != nil) != (b.Pack != nil) || (o.Str != nil) != (b.Str != nil) {
+			ex.assume(f.Not(f.Eq(d, o.digest)))
+			continue
+		}
+		ex.assume(f.Eq(f.Eq(d, o.digest), ex.blobEq(b, o)))
+	}
+	ex.digested = append(ex.digested, b)
+	return d
 }
 
 func (ex *Exec) tryDeepEq(a, b Value) (t *Term, ok bool) {
@@ -129,4 +176,95 @@ func (ex *Exec) deepEq(a, b Value, depth int) *Term {
 		panic(engineErr("deepEq on maps"))
 	}
 	return ex.valEq(a, b)
+}
+
+// blobKey: structural identity of an opaque encoding (same key => same bytes).
+func (ex *Exec) blobKey(b *Blob) string {
+	var sb strings.Builder
+	ok := true
+	var walk func(v Value, depth int)
+	walk = func(v Value, depth int) {
+		if depth > 30 || sb.Len() > 1<<16 {
+			ok = false
+			return
+		}
+		switch x := v.(type) {
+		case Int:
+			fmt.Fprintf(&sb, "i%d,", x.T.ID)
+		case BoolV:
+			fmt.Fprintf(&sb, "b%d,", x.T.ID)
+		case Big:
+			fmt.Fprintf(&sb, "B%d,", x.T.ID)
+		case Float:
+			fmt.Fprintf(&sb, "f%d,", x.T.ID)
+		case Str:
+			switch {
+			case x.Enc != nil:
+				sb.WriteString("e" + x.Enc.Kind + ":" + termsKey(x.Enc.Data) + ",")
+			case x.Opq != nil:
+				fmt.Fprintf(&sb, "o%d,", x.Opq.ID)
+			default:
+				sb.WriteString("s" + termsKey(x.B) + ",")
+			}
+		case Ptr:
+			if x.O == nil {
+				sb.WriteString("nil,")
+			} else {
+				sb.WriteString("&(")
+				walk(ex.load(x), depth+1)
+				sb.WriteString("),")
+			}
+		case Struct:
+			sb.WriteString("{")
+			for _, fv := range x.F {
+				walk(fv, depth+1)
+			}
+			sb.WriteString("},")
+		case Array:
+			sb.WriteString("[")
+			for _, e := range x.E {
+				walk(e, depth+1)
+			}
+			sb.WriteString("],")
+		case Slice:
+			if x.Blob != nil {
+				sb.WriteString("blob(" + ex.blobKey(x.Blob) + "),")
+			} else {
+				sb.WriteString("sl[")
+				for _, e := range ex.sliceElems(x) {
+					walk(e, depth+1)
+				}
+				sb.WriteString("],")
+			}
+		case Iface:
+			if x.T == nil {
+				sb.WriteString("nilif,")
+			} else {
+				sb.WriteString("if:" + x.T.String() + "(")
+				walk(x.V, depth+1)
+				sb.WriteString("),")
+			}
+		default:
+			ok = false
+		}
+	}
+	switch {
+	case b.Pack != nil:
+		fmt.Fprintf(&sb, "pack:%s:%s:%d:", b.Pack.abi, b.Pack.method, b.Pack.skip)
+		for _, a := range b.Pack.args {
+			walk(a, 0)
+		}
+	case b.Str != nil:
+		sb.WriteString("str:")
+		walk(*b.Str, 0)
+	default:
+		if b.Typ != nil {
+			sb.WriteString("msg:" + b.Typ.String() + ":")
+		}
+		walk(b.V, 0)
+	}
+	if !ok {
+		return ""
+	}
+	return sb.String()
 }
